@@ -8,6 +8,7 @@ import (
 	"fmt"
 	"reflect"
 	"strings"
+	"time"
 
 	"gitee.com/xuesongtao/protoc-go-valid/valid"
 
@@ -94,6 +95,16 @@ type Plain struct {
 type Quoted struct {
 	Name string `valid:"required|'a,b',in=(x,y/z)|'p,q',le=3"`
 	Code string `valid:"include=(ab/cd),ge=2"`
+}
+
+// Order has time.Time fields (which the analysis of a struct type skips) between ruled fields.
+type Order struct {
+	ID     int       `valid:"required" v2:"ge=5"`
+	At     time.Time `valid:"required"`
+	Phone  string    `valid:"exist,phone" v2:"required"`
+	Paid   time.Time
+	Nick   string    `valid:"either=1"`
+	Amount float64   `valid:"to=1~5" v2:"le=2"`
 }
 
 var _ = Misc{}.hidden
@@ -201,6 +212,13 @@ var statics = []typeInfo{
 	{"Quoted", func(v int) interface{} {
 		return &Quoted{Name: []string{"", "x,y", "z", "zzzz"}[v%4], Code: []string{"", "ab", "xabx", "q"}[v%4]}
 	}, []string{""}},
+	{"Order", func(v int) interface{} {
+		o := &Order{ID: v % 3, Phone: phones[v%4], Nick: []string{"", "n"}[v%2], Amount: float64(v % 8)}
+		if v%2 == 0 {
+			o.At = time.Date(2024, 1, 1+v%5, 10, 0, 0, 0, time.UTC)
+		}
+		return o
+	}, []string{"", "v2"}},
 	// same type NAMES as Pay / User / Item above, other package, other rules
 	{"AltPay", func(v int) interface{} {
 		return &alt.Pay{AppName: strN(v % 8), Amount: float64((v * 3) % 13), Note: strN(v % 6)}
@@ -244,6 +262,13 @@ func dynType(i int) reflect.Type {
 			// a rule text that is unique to this type (a regular expression no other type uses):
 			// whatever the library memoises per rule text is cold the first time a process meets this type
 			tag = fmt.Sprintf(`valid:"re='^x{0,%d}$'" v2:"%s"`, 1+(i/4)%200, dynStrRules[r2])
+		}
+		if i%4 == 3 && f == 0 {
+			// a rule NAME nobody registered, unique to this type: the library answers "valid ... is not exist"
+			tag = fmt.Sprintf(`valid:"nosuch%d" v2:"%s"`, i/4, dynStrRules[r2])
+			if isInt {
+				tag = fmt.Sprintf(`valid:"nosuch%d,ge=1" v2:"%s"`, i/4, dynIntRules[r2])
+			}
 		}
 		dup := false
 		for _, e := range fields {
